@@ -67,6 +67,23 @@ pub fn drivers(spec: SpecId) -> Vec<Driver> {
         ("blockhash_reader(e1)".to_string(), tx(eoa(1), 0, Some(contract(7)), 0, Default::default())),
     ];
     v.push(Driver { case: Case::new("blockhash", spec, db, txs), stale_keys: vec![] });
+    // mid-block sequential replay: two valid transfers, a nonce-too-low transaction (the ordered
+    // commit refuses it, the suffix is replayed sequentially from a committed prefix of 2), then a
+    // storage-reading call. A fault on a key of the last transaction must be reported with the
+    // *block* index 3 and the exact prefix.
+    {
+        let mut db = MemDb::default();
+        blocks::rich(&mut db, 3);
+        db.deploy(contract(9), kit::store());
+        db.set_storage(contract(9), 1, 11);
+        let txs = vec![
+            ("transfer(e0->e1)#0".to_string(), transfer(eoa(0), 0, eoa(1), 1)),
+            ("transfer(e0->e1)#1".to_string(), transfer(eoa(0), 1, eoa(1), 1)),
+            ("stale-nonce(e0->e1)".to_string(), transfer(eoa(0), 0, eoa(1), 1)),
+            ("store(S,1,5)(e2)".to_string(), call(eoa(2), 0, contract(9), &[word(1), word(5)])),
+        ];
+        v.push(Driver { case: Case::new("replayed-suffix", spec, db, txs), stale_keys: vec![] });
+    }
     // a custom precompile that ignores a database fault returned by the facade: the fault must
     // still take effect
     {
